@@ -96,3 +96,27 @@ Definition check_case := check_gen true true.
 (* the code as it was at the pinned commit *)
 Definition check_case_old := check_gen false false.
 
+
+(* ---- the composition theorem's hypotheses and conclusion on a generated case ----
+   [guard_case]: the written list is under the hypotheses of C09.Props.C09_composition
+   (every field well-formed, no formula-terms conflict).
+   [spec_case]: under those hypotheses, what cfdm.read returned per field is the
+   specification view [expected f] of that field alone (Spec.v), no writer state
+   involved; outside them nothing is claimed. *)
+From CfdmV Require Import C09.Spec.
+
+Definition guard_fields (fs : list field) : bool := forallb wfb fs && negb (ft_conflict true fs).
+
+Definition guard_case
+    (cs : list field * list (list nat) * list (list nat) *
+          list (list rcons * list (option Z * Z * list Z) * list rgm)) : bool :=
+  let '(fs, _, _, _) := cs in guard_fields fs.
+
+Definition spec_case
+    (cs : list field * list (list nat) * list (list nat) *
+          list (list rcons * list (option Z * Z * list Z) * list rgm)) : bool :=
+  let '(fs, _, _, oread) := cs in
+  if guard_fields fs then
+    Nat.eqb (length fs) (length oread) &&
+    forallb (fun p => rfield_eqb (fst p) (snd p)) (combine (map expected fs) oread)
+  else true.
